@@ -477,6 +477,84 @@ def drive_chain(cm, np, rng, n_events, out, rep):
     f.close()
 
 
+def drive_symbol(cm, np, rng, n_events, out, rep):
+    S = cm.symbol
+    f = open(out + ".ndjson", "w")
+
+    def emit(ev):
+        f.write(json.dumps(ev) + "\n"); rep.events += 1
+
+    def wbits(words):
+        return [(int(w) >> i) & 1 for w in words for i in range(32)]
+
+    F32SET = [1, 3, 16777215, 16777216, 16777218, 33554432, 33554436]
+
+    def book():
+        """(weights, f32?, encoder tree, decoder tree)"""
+        if rng.random() < 0.3:
+            w = [rng.choice(F32SET) for _ in range(rng.randint(1, 5))]; arr = np.array(w, dtype=np.float32); f32 = True; rep.cls("book_f32")
+        else:
+            w = [rng.choice([0, 1, 1, 2, 3, 5, 8, 100, rng.randint(0, 1 << 20)]) for _ in range(rng.randint(1, 7))]
+            arr = np.array(w, dtype=np.float64); f32 = False; rep.cls("book_f64")
+        return w, f32, S.huffman.EncoderHuffmanTree(arr), S.huffman.DecoderHuffmanTree(arr)
+
+    while rep.events < n_events:
+        # ---- stack coder: pushes, pops, exports (the export goes through the guard that seals and unseals), re-import
+        st = S.StackCoder(); emit({"ev": "stack_new"})
+        frames = []
+        for _ in range(rng.randint(0, 60)):
+            r = rng.random()
+            if r < 0.5:
+                w, f32, enc, dec = book(); sym = rng.randrange(len(w))
+                if len(w) == 1: pass
+                st.encode_symbol(sym, enc); frames.append((w, f32, dec, sym)); emit({"ev": "stack_enc", "w": w, "f32": f32, "sym": sym}); rep.cls("stack_enc")
+            elif r < 0.75 and frames:
+                w, f32, dec, sym = frames.pop()
+                got = int(st.decode_symbol(dec))
+                if got != sym: rep.bad("StackCoder (python): pushed %d, popped %d (weights %r)" % (sym, got, w))
+                emit({"ev": "stack_dec", "w": w, "f32": f32, "sym": got}); rep.cls("stack_dec")
+            elif r < 0.9:
+                words, bitrate = st.get_compressed_and_bitrate()
+                emit({"ev": "stack_export", "word_bits": wbits(words), "bitrate": int(bitrate)}); rep.cls("stack_export")
+                if bitrate % 32 == 0: rep.cls("stack_export_at_word_boundary")
+            elif r < 0.95:
+                words, _ = st.get_compressed_and_bitrate(); words = [int(x) for x in words]
+                st = S.StackCoder(np.array(words, dtype=np.uint32)); emit({"ev": "stack_from", "word_bits": wbits(words)}); rep.cls("stack_reimport")
+            else:
+                w, f32, enc, dec = book()
+                try:
+                    st.encode_symbol(len(w) + rng.randint(0, 2), enc); rep.bad("StackCoder (python): symbol outside the alphabet accepted")
+                except Exception:
+                    emit({"ev": "stack_enc_refused", "w": w, "f32": f32, "sym": len(w)}); rep.cls("stack_enc_refused")
+        # ---- queue encoder / decoder
+        q = S.QueueEncoder(); emit({"ev": "queue_new"})
+        msg = []
+        for _ in range(rng.randint(0, 40)):
+            w, f32, enc, dec = book(); sym = rng.randrange(len(w))
+            q.encode_symbol(sym, enc); msg.append((w, f32, dec, sym)); emit({"ev": "queue_enc", "w": w, "f32": f32, "sym": sym}); rep.cls("queue_enc")
+            if rng.random() < 0.2:
+                words, bitrate = q.get_compressed_and_bitrate(); emit({"ev": "queue_export", "word_bits": wbits(words), "bitrate": int(bitrate)}); rep.cls("queue_export")
+        words, bitrate = q.get_compressed_and_bitrate(); words = [int(x) for x in words]
+        emit({"ev": "queue_export", "word_bits": wbits(words), "bitrate": int(bitrate)})
+        if rng.random() < 0.5:
+            qd = q.get_decoder(); rep.cls("queue_get_decoder")
+        else:
+            qd = S.QueueDecoder(np.array(words, dtype=np.uint32)); rep.cls("queue_decoder_from_words")
+        emit({"ev": "queue_decoder", "word_bits": wbits(words), "from_encoder": True})
+        for (w, f32, dec, sym) in msg:
+            got = int(qd.decode_symbol(dec))
+            if got != sym: rep.bad("QueueDecoder (python): wrote %d, read %d (weights %r)" % (sym, got, w))
+            emit({"ev": "queue_dec", "w": w, "f32": f32, "sym": got}); rep.cls("queue_dec")
+        # past the end: zero padding decodes as whatever the all-zero codeword is, then the documented error
+        for _ in range(40):
+            w, f32, enc, dec = book()
+            try:
+                got = int(qd.decode_symbol(dec)); emit({"ev": "queue_dec", "w": w, "f32": f32, "sym": got}); rep.cls("queue_dec_padding")
+            except ValueError:
+                emit({"ev": "queue_dec_out_of_data", "w": w, "f32": f32}); rep.cls("queue_dec_out_of_data"); break
+    f.close()
+
+
 def family_ok(frames):
     """frames (top first) can be decoded by ONE family call: same kind, and the kind's shared shape parameters agree"""
     k0 = frames[0][0]
@@ -544,7 +622,7 @@ def main():
     rng = random.Random(a.seed * 7919 + hash(a.coder) % 1000 if False else a.seed * 7919 + sum(map(ord, a.coder)))
     rep = Report()
     try:
-        {"ans": drive_ans, "range": drive_range, "chain": drive_chain}[a.coder](cm, np, rng, a.n, a.out, rep)
+        {"ans": drive_ans, "range": drive_range, "chain": drive_chain, "symbol": drive_symbol}[a.coder](cm, np, rng, a.n, a.out, rep)
     except BaseException as e:      # a panic in the extension module surfaces as pyo3_runtime.PanicException (a BaseException)
         rep.bad("exception escaped from a Python API call that the driver expects to succeed: %s: %s\n%s" % (type(e).__name__, e, traceback.format_exc()[-1500:]))
     json.dump({"events": rep.events, "classes": rep.classes, "mismatches": rep.mismatches}, open(a.out + ".report.json", "w"))
